@@ -31,9 +31,10 @@ struct Scenario
     std::vector<int> beh;       // per request
     std::vector<int> timeoutMs; // per request, 0 = none
     int D;
+    bool fine = false; // requests are issued by gated harness threads that also park at every mutex acquisition
     std::string str() const
     {
-        std::string s = "threads=" + std::to_string(threads) + " maxConn=" + std::to_string(limit) + " requests=[";
+        std::string s = std::string(fine ? "[fine-grained issue] " : "") + "threads=" + std::to_string(threads) + " maxConn=" + std::to_string(limit) + " requests=[";
         for (int i = 0; i < n; ++i)
             s += std::string(i ? "," : "") + kBehNames[beh[i]] + (timeoutMs[i] ? "/timeout" + std::to_string(timeoutMs[i]) : "");
         return s + "] D<=" + std::to_string(D);
@@ -226,6 +227,31 @@ static Exec run_one(const Scenario& sc, const std::vector<uint8_t>& prefix, vr::
                 throw sim::HarnessError { "client reactor thread did not reach epoll_wait" };
         int issued = 0, ticks = 0;
         std::vector<Async::Promise<Http::Response>> promises;
+        // joins the issuing threads whatever happens (a harness error must not end in std::terminate)
+        struct ThreadBag
+        {
+            std::vector<std::thread> v;
+            ~ThreadBag()
+            {
+                ng_release_all();
+                for (auto& t : v)
+                    if (t.joinable())
+                        t.join();
+            }
+        } bag;
+        std::vector<std::thread>& issuerThreads = bag.v;
+        std::vector<int> issuerActor;
+        auto do_issue = [&](int tag) {
+            std::string url = "127.0.0.1:" + std::to_string(srv.port) + "/r/" + std::to_string(tag);
+            auto rb         = client.get(url);
+            if (sc.timeoutMs[tag])
+                rb.timeout(std::chrono::milliseconds(sc.timeoutMs[tag]));
+            ReqObs* o = &obs[tag];
+            auto p    = rb.send();
+            p.then([o](Http::Response r) { o->fulfilled++; o->body = r.body(); o->code = (int)r.code(); },
+                   [o](std::exception_ptr) { o->rejected++; });
+            promises.push_back(std::move(p));
+        };
         auto detail = [&](const std::string& extra) {
             return "{\"scenario\":" + vr::jstr(sc.str()) + ",\"schedule\":" + vr::jstr(trace) + "," + extra + "}";
         };
@@ -241,10 +267,18 @@ static Exec run_one(const Scenario& sc, const std::vector<uint8_t>& prefix, vr::
             for (size_t ci = 0; ci < srv.conns.size(); ++ci)
                 if (srv.can_read(ci))
                     en.push_back(300 + (int)ci);
+            // (fine-grained scenarios) issuing threads and the next issue come before the server's answers in the
+            // canonical order: a request is issued while its predecessor is in flight, and ONE deviation (the server
+            // answers now) slips a completion between two critical sections of that issue
+            for (size_t k = 0; k < issuerActor.size(); ++k)
+                if (sim::actor_ready(issuerActor[k]))
+                    en.push_back(600 + (int)k);
+            if (sc.fine && issued < sc.n)
+                en.push_back(100);
             for (size_t ci = 0; ci < srv.conns.size(); ++ci)
                 if (srv.can_answer(ci, sc))
                     en.push_back(400 + (int)ci);
-            if (issued < sc.n)
+            if (!sc.fine && issued < sc.n)
                 en.push_back(100);
             // time only needs to pass while something with a time-out is outstanding
             bool waitingTimeout = false;
@@ -280,24 +314,41 @@ static Exec run_one(const Scenario& sc, const std::vector<uint8_t>& prefix, vr::
             {
                 int tag = issued++;
                 trace += "issue" + std::to_string(tag) + " ";
-                std::string url = "127.0.0.1:" + std::to_string(srv.port) + "/r/" + std::to_string(tag);
-                auto rb         = client.get(url);
-                if (sc.timeoutMs[tag])
-                    rb.timeout(std::chrono::milliseconds(sc.timeoutMs[tag]));
-                ReqObs* o = &obs[tag];
-                try
+                if (sc.fine)
                 {
-                    auto p = rb.send();
-                    p.then([o](Http::Response r) { o->fulfilled++; o->body = r.body(); o->code = (int)r.code(); },
-                           [o](std::exception_ptr) { o->rejected++; });
-                    promises.push_back(std::move(p));
+                    issuerThreads.emplace_back();
+                    int id = sim::spawn_fine(issuerThreads.back(), [&do_issue, tag]() {
+                        try
+                        {
+                            do_issue(tag);
+                        }
+                        catch (const std::exception&)
+                        { }
+                    });
+                    if (ng_wait_parked(id, 10000) != 0)
+                        throw sim::HarnessError { "issuing thread did not park" };
+                    issuerActor.push_back(id);
                 }
-                catch (const std::exception& e)
+                else
                 {
-                    ctx.violation("c15:send-threw", detail("\"what\":" + vr::jstr(e.what())));
-                    x.ok = false;
+                    try
+                    {
+                        do_issue(tag);
+                    }
+                    catch (const std::exception& e)
+                    {
+                        ctx.violation("c15:send-threw", detail("\"what\":" + vr::jstr(e.what())));
+                        x.ok = false;
+                    }
                 }
                 sim::await_readiness(10);
+            }
+            else if (act >= 600)
+            {
+                trace += "I" + std::to_string(act - 600) + " ";
+                sim::step_actor(issuerActor[act - 600]);
+                ++steps;
+                sim::await_readiness(5);
             }
             else if (act == 200)
             {
@@ -340,6 +391,8 @@ static Exec run_one(const Scenario& sc, const std::vector<uint8_t>& prefix, vr::
             for (auto& c : srv.conns)
                 printf("  [debug] server conn closed=%d pending=%zu in=%zu\n", c.closed, c.pendingTags.size(), c.in.size());
         }
+        if (ctx.verbose)
+            printf("trace: %s\n", trace.c_str());
         // ---- oracle ----
         for (int i = 0; i < sc.n && x.ok; ++i)
         {
@@ -373,8 +426,40 @@ static Exec run_one(const Scenario& sc, const std::vector<uint8_t>& prefix, vr::
             }
             ctx.outcome(std::string(kBehNames[sc.beh[i]]) + (sc.timeoutMs[i] ? "/timeout" : "") + " -> " + (o.fulfilled ? "fulfilled" : o.rejected ? "rejected" : "pending"));
         }
+        // a request parked in the client's own queue while a connection to that host sits idle is a lost wake-up
+        {
+            bool idleConn = false;
+            for (auto& kv : client.pool.conns)
+                for (auto& c : kv.second)
+                    idleConn |= c->isIdle() && c->isConnected();
+            bool queued = false;
+            for (auto& kv : client.requestsQueues)
+            {
+                std::shared_ptr<Http::Experimental::Connection::RequestData> data;
+                if (kv.second.dequeue(data))
+                    queued = true;
+            }
+            if (queued && idleConn && x.ok)
+                ctx.violation("c15:queued-request-never-started-although-a-connection-is-idle", detail("\"x\":0"));
+        }
         if (srv.peakOpen > sc.limit)
             ctx.violation("c15:more-connections-than-configured", detail("\"peak\":" + std::to_string(srv.peakOpen) + ",\"limit\":" + std::to_string(sc.limit)));
+        // issuing threads still parked run to their end first
+        for (int round = 0; round < 200; ++round)
+        {
+            bool all = true;
+            for (int id : issuerActor)
+                if (!ng_has_exited(id))
+                {
+                    all = false;
+                    if (ng_is_parked(id) && sim::actor_ready(id))
+                        sim::step_actor(id);
+                    else
+                        ng_wait_parked(id, 50);
+                }
+            if (all)
+                break;
+        }
         // shut the client down: its threads must leave
         client.shutdown();
         sim::bump_activity();
@@ -399,6 +484,9 @@ static Exec run_one(const Scenario& sc, const std::vector<uint8_t>& prefix, vr::
         }
         ng_release_all();
         sim::configure(true, false, false);
+        for (auto& t : issuerThreads)
+            if (t.joinable())
+                t.join();
         srv.stop();
         promises.clear();
     }
@@ -517,6 +605,20 @@ int main(int argc, char** argv)
                     gScenarios.push_back(t);
                 }
             }
+        }
+    // fine-grained issue: more requests than connections, issued by gated threads (lost wake-up between the
+    // connection pool and the client's request queue)
+    for (int threads : { 1, 2 })
+        for (int n = 2; n <= 3; ++n)
+        {
+            Scenario s { threads, 1, n, {}, {}, std::max(maxD, 1) };
+            s.fine = true;
+            for (int i = 0; i < n; ++i)
+            {
+                s.beh.push_back(B_WHOLE);
+                s.timeoutMs.push_back(0);
+            }
+            gScenarios.push_back(s);
         }
     return vr::run(opt, gScenarios.size(), run_case);
 }
